@@ -38,6 +38,7 @@ from .values import (
     short,
     subst_val,
     sym_has_star,
+    has_opq,
 )
 
 MAX_DEPTH = 14
@@ -830,6 +831,10 @@ class ExprMixin:
                 return ("c", int(key.const))
             if key.sym is not None and key.sym[0] == "idx":
                 return key.sym[1]
+            if key.sym is not None and key.kinds and key.kinds <= {"int", "bool"} and key.sym[0] in ("add", "sub") and not sym_has_star(key.sym) and not has_opq(key.sym):
+                # a computed integer subscript (e.g. the ladder neighbours i - 1 / i + 1): the position is named by the term, so
+                # two reads through the same subscript value denote the same element
+                return ("k", key.sym)
         return STAR
 
     def load_subscript(self, obj: Val, key, node, state: State) -> Val:
@@ -897,7 +902,7 @@ class ExprMixin:
                 v = subst_val(seq.elem, {seq.kvar: it})
                 if seq.witness is not None and it == STAR:
                     v = join_val(v, seq.witness)
-                if isinstance(v, Num) and (v.sym is None or sym_has_star(v.sym)) and isinstance(obj, Ptr) and it != STAR and it[0] in ("v", "perm") and all(i[0] in ("v", "c", "perm") for i in obj.idx):
+                if isinstance(v, Num) and (v.sym is None or sym_has_star(v.sym)) and isinstance(obj, Ptr) and it != STAR and it[0] in ("v", "perm", "k") and all(i[0] in ("v", "c", "perm") for i in obj.idx):
                     # value numbering of list reads: same list, same position, no intervening mutation
                     v = replace(v, sym=("elem", obj.loc + f"#v{self.list_version.get(obj.loc, 0)}", obj.idx, it))
                 return v
